@@ -504,7 +504,7 @@ const _: () = {
         fn variant_seed<V>(self, seed: V) -> Result<(V::Value, Self::Variant), Self::Error>
         where V: serde::de::DeserializeSeed<'de> {
             Ok((
-                seed.deserialize(self.de.next_section().unwrap().into_deserializer())?,
+                seed.deserialize(self.de.next_section()?.into_deserializer())?,
                 self,
             ))
         }
